@@ -1167,3 +1167,79 @@ def check(ctx):
     ctx.assume("struct.pack/unpack semantics as modelled in vlib.symbytes (byte order, field sizes via struct.calcsize)")
     ctx.note("Not decided: truncated/malformed datagrams; values outside the struct field ranges; identifiers that themselves contain framing tags.")
     ctx.trusted += ["re._parser (regex AST of the constant pattern)", "vlib.symbytes struct model"]
+
+
+def hello_replies_are_claimed(ctx, repo, rule):
+    """concrete form of the HELLO round trip (the symbolic one needs a decoder it can read): for names without, with one
+    and with several separator characters, empty, and with Latin-1 letters, the reply the builder makes is CLAIMED by a
+    fresh hello handler (can_handle) and decodes to the identifier and the name it was built from.  A frame test that
+    allows one separator only leaves the reply of a spa named `Hot|Tub` unclaimed: on the awaitable locator it stays at
+    the head of the queue and every reply behind it is lost too."""
+    from ..absint import Interp, PyRaise, Undecided
+    H = "GeckoHelloProtocolHandler"
+    n = 0
+    for ident, name in ((b"SPA01:02:03:04:05:06", "My Spa"), (b"SPA-A", "Hot|Tub"), (b"SPA-B", "Hot|Tub|Deck"), (b"SPA-C", "|leading"), (b"SPA-D", "trailing|"),
+                        (b"SPA-E", ""), (b"SPA-F", "Caf\\xe9 \\xc4rger".encode().decode("unicode_escape"))):
+        it = Interp(repo, max_depth=10)
+        try:
+            msg = build_message(repo, it, H, "response", [ident, name])
+            it.steps = 0
+            wire = it.getattr(msg, "send_bytes")
+            wire = SymBytes.of(wire).concrete() if not isinstance(wire, (bytes, bytearray)) else bytes(wire)
+            rx = fresh_handler(repo, it, repo.cls(H))
+            claimed = can_handle(repo, it, repo.cls(H), rx, wire)
+            got = None
+            if claimed is True:
+                it.steps = 0
+                it.call(repo.method(H, "handle"), rx, [wire, SENDER])
+                got = (it.getattr(rx, "spa_identifier"), it.getattr(rx, "spa_name"))
+        except PyRaise as e:
+            claimed, got = f"raises {e.what}", None
+        except Undecided as e:
+            raise AnalysisError(f"{H}: reply for the name {name!r} on concrete bytes: {e}")
+        n += 1
+        ctx.ob(rule, f"{H}::reply-named-{name!r}::claimed-and-decoded", claimed is True and got == (ident, name),
+               f"{H}: the reply built for identifier {ident!r}, name {name!r} is {'claimed' if claimed is True else 'NOT claimed (' + str(claimed) + ')'} by a hello handler and decodes to {got!r} - "
+               f"expected it to be claimed and to decode to what it was built from (a reply nobody claims is never listed, and on the awaitable locator blocks the replies behind it)",
+               repo.method(H, "can_handle").loc, sample={"rule": rule, "name": name})
+    ctx.floor(rule, "hello replies built, claimed and decoded on concrete bytes", n, 6)
+
+
+def outer_header_wins(ctx, repo, rule):
+    """whose packet is it: the identifier pair of a framed packet is the one in ITS header - the first <SRCCN>..<DESCN>
+    ..<DATAS> of the datagram - whatever its payload contains.  A foreign packet (another pair in the header) whose
+    payload embeds a complete header naming this connection's pair must still read as foreign; a greedy prefix in the
+    header pattern takes the LAST header of the datagram, and the connection re-queues the embedded content as its own."""
+    from ..absint import Interp, PyRaise, Undecided
+    P = "GeckoPacketProtocolHandler"
+    n = 0
+
+    def frame(src, dst, body):
+        return b"<PACKT><SRCCN>" + src + b"</SRCCN><DESCN>" + dst + b"</DESCN><DATAS>" + body + b"</DATAS></PACKT>"
+    mine = (b"SPA01:02:03:04:05:06", b"IOSclient-0001")
+    other = (b"SPA99:99:99:99:99:99", b"IOSclient-9999")
+    inner = b"<SRCCN>" + mine[0] + b"</SRCCN><DESCN>" + mine[1] + b"</DESCN><DATAS>STATP\x01\x00\x20\xbe\xef"
+    cases = {"plain-foreign": (other, b"APING\x00"), "foreign-with-embedded-header": (other, inner),
+             "own-with-embedded-foreign-header": (mine, b"<SRCCN>" + other[0] + b"</SRCCN><DESCN>" + other[1] + b"</DESCN><DATAS>RFERR")}
+    for key, (pair, body) in cases.items():
+        it = Interp(repo, max_depth=10)
+        try:
+            ref = new_handler(repo, it, P)
+            it.call(repo.method(P, "handle"), ref, [frame(pair[0], pair[1], b"APING\x00"), SENDER])
+            want_parms = as_tuple(it.getattr(ref, "parms"))
+            rx = new_handler(repo, it, P)
+            it.steps = 0
+            it.call(repo.method(P, "handle"), rx, [frame(pair[0], pair[1], body), SENDER])
+            got_parms, got_body = as_tuple(it.getattr(rx, "parms")), it.getattr(rx, "packet_content")
+            got_body = SymBytes.of(got_body).concrete() if not isinstance(got_body, (bytes, bytearray, type(None))) else got_body
+        except PyRaise as e:
+            want_parms, got_parms, got_body = None, f"raises {e.what}", None
+        except Undecided as e:
+            raise AnalysisError(f"{P}.handle on concrete nested frames ({key}): {e}")
+        n += 1
+        ok = want_parms is not None and got_parms == want_parms and got_body is not None and bytes(got_body) == body
+        ctx.ob(rule, f"{P}::{key}::identifiers-from-its-own-header", ok,
+               f"{P}.handle on a packet from {pair[0]!r} to {pair[1]!r} whose payload is {body[:40]!r}...: reads identifiers {got_parms!r} and content {bytes(got_body)[:30] if got_body is not None else None!r} - "
+               f"expected the identifiers of the packet's own (first) header {want_parms!r} and the whole payload: a packet addressed to somebody else must not be read as this connection's",
+               repo.method(P, "handle").loc, sample={"rule": rule, "case": key})
+    ctx.floor(rule, "nested frames decoded on concrete bytes", n, 3)
